@@ -55,6 +55,39 @@ def _isinstance(obj, types):
 
 cc._PATCH_REGISTRATIONS[isinstance] = _isinstance
 
+# ---- E5: dict() of concrete arguments is a real dict ----------------------------------------------
+# CrossHair models every dict() call as a ShellMutableMap (so that symbolic keys need not be hashed).
+# glom stores such objects in __dict__ (ScopeVars) and passes them to unbound dict methods
+# (Merge: dict.update(acc, v)), both of which CPython refuses for a non-dict.  When no argument is a
+# symbolic proxy and no key is one, build the real dict; keys inserted later are realised by
+# hashing, which is the documented (D) treatment of hashed values.
+_orig_dict = cc._PATCH_REGISTRATIONS[dict]
+_real_dict = builtins.dict
+
+
+def _dict(*a, **kw):
+    with NoTracing():
+        ok = len(a) <= 1
+        if ok and a:
+            arg = a[0]
+            if _real_isinstance(arg, CrossHairValue):
+                ok = False
+            elif type(arg) in (_real_dict, __import__('collections').OrderedDict):
+                ok = True      # keys of a real dict are already concrete
+            elif type(arg) in (list, tuple):
+                for pair in arg:
+                    if not (type(pair) in (list, tuple) and len(pair) == 2) or _real_isinstance(pair[0], CrossHairValue):
+                        ok = False
+                        break
+            else:
+                ok = False
+        if ok:
+            return _real_dict(*a, **kw)
+    return _orig_dict(*a, **kw)
+
+
+cc._PATCH_REGISTRATIONS[dict] = _dict
+
 # ---- E3: solver accounting -------------------------------------------------------------------
 import z3  # noqa: E402
 
